@@ -126,7 +126,12 @@ def build_tasks(tier: str, seed: int) -> List[Dict[str, Any]]:
                     lo, hi = rng.choice([(1, 1), (2, 5), (1, 3)])
                     task["mutations"].append(dict(s=s, min=lo, max=hi, fix_timeout=rng.choice([1, 2]),
                                                   budget=20))
-        tasks.append(task)
+        # one pool task per repair()/mutate() call (they dominate the wall clock), one for all check/parse inputs
+        for plan in task["repairs"]:
+            tasks.append(dict(task, strings=[], repairs=[plan], mutations=[]))
+        for plan in task["mutations"]:
+            tasks.append(dict(task, strings=[], repairs=[], mutations=[plan]))
+        tasks.append(dict(task, repairs=[], mutations=[]))
     tasks.sort(key=lambda k: (-(len(k["repairs"]) + len(k["mutations"])), 0 if k["grammar"] == "assgn" else 1))
     return tasks
 
@@ -355,7 +360,7 @@ def run(rep, tier: str, seed: int) -> None:
              "the language], plus one case per repair() and mutate() call; inputs per grammar: shortest strings of "
              "the exhaustive tree enumeration (bounded.reftree.ref_trees up to ENUM_NODES nodes), seed-sampled longer "
              "ones, character-level mutations (delete/insert/replace/swap) of them, '' and '?!'")
-    rep.bound(f"{len(tasks)} (grammar, constraint) pairs from bounded.c01_cases.TEMPLATES; strings <= {MAX_LEN} "
+    rep.bound(f"{len(set(t['tid'] for t in tasks))} (grammar, constraint) pairs from bounded.c01_cases.TEMPLATES; strings <= {MAX_LEN} "
               "characters from trees within ENUM_NODES (wide: 10 hand-picked strings up to 40 characters); "
               + ("quick: 26 valid + 14 mutated strings per grammar, repair/mutate for 64 seed-selected templates "
                  "(4 repair, 1 mutate each)" if tier == "quick" else
